@@ -11,6 +11,7 @@ ARBITRARY checksum function `crc32 : Bytes → Nat` (the encoder writes, and the
 (`S3V/Model/EvStream.lean`); `decodeFrame`, `decodeAll`, `interpret`, `readStream` are the independent decoder and
 the S3 Select reading of a message (`S3V/Spec/EvStream.lean`). `sizesOk m` is the explicit decidable predicate
 "every header name < 256 bytes, every header value < 65536 bytes, 16 + headers + payload < 2^32".
+Since repair f8c01e3 (`truncate_header_value`) every error item meets it: `C15_error_always_framed` is full.
 -/
 namespace S3V.C15
 open S3V S3V.EvStream S3V.EvStreamSpec S3V.EvStreamThm
